@@ -35,7 +35,8 @@ TRUSTED = ["hand models lean/AwsVerif/Model/Sched.lean and Model/Heap.lean (tied
 ASSUMPTIONS = ["API contract (enforced by the client wrapper in harness and model): a task is scheduled only while not pending, "
                "cancelled only while pending", "task functions do not call run_all / clean_up themselves",
                "fewer than 2^63 tasks", "allocation does not fail other than through the forced-failure switch"]
-RULE = ("programs over 1..12 tasks: sched_now / sched_future / cancel / run_all / has_tasks / cleanup / failmode, task functions "
+RULE = ("programs over 1..15 tasks (incl. histories with 6..15 timed tasks pending at once, cancels at every heap position, "
+        "and a small-scope slice over heap sizes 2..8): programs over 1..12 tasks: sched_now / sched_future / cancel / run_all / has_tasks / cleanup / failmode, task functions "
         "with per-generation scripts (schedule, self re-schedule, cancel incl. tasks already in the running batch), timestamps "
         "0 / equal / decreasing / UINT64_MAX; non-trivial = >=3 schedules, >=1 run_all with a non-empty batch, >=1 script "
         "action; distinct by op-file hash")
@@ -279,9 +280,116 @@ def exhaustive_cases(depth):
     return out
 
 
+def _fmt_ts(ts):
+    return "MAX" if ts == MAX else str(ts)
+
+
+def _ts_pool(rng, n):
+    """timestamps for n simultaneously pending timed tasks: distinct, with duplicates, or clustered at the extremes"""
+    kind = rng.choice(["perm", "perm", "dups", "dups", "few", "edge"])
+    if kind == "perm":
+        base = rng.choice([0, 1, 100, MAX - 3 * n])
+        v = [base + 2 * i for i in range(n)]
+        rng.shuffle(v)
+        return v
+    if kind == "dups":
+        return [rng.randint(0, max(1, n // 2)) * 3 for _ in range(n)]
+    if kind == "few":
+        return [rng.choice([5, 5, 7]) for _ in range(n)]
+    return [rng.choice([0, 0, 1, MAX, MAX - 1, 50]) for _ in range(n)]
+
+
+def gen_heap_case(rng):
+    """many timed tasks pending at once (6..15): cancels of tasks sitting anywhere in the heap (root, interior, leaf,
+    last slot) interleaved with run_all calls that make only some of them due and with re-schedules; has_tasks / next
+    time is observed after every op, the order of the runs by the log"""
+    nt = rng.randint(6, 15)
+    ops = [f"init {nt}"]
+    if rng.random() < 0.15:
+        ops.append("failmode 1")
+        fail = True
+    else:
+        fail = False
+    ts = _ts_pool(rng, nt)
+    pending = {}
+    for t in range(nt):
+        if fail and rng.random() < 0.5:
+            ops.append("failmode 0"); fail = False
+        ops.append(f"sched_future T{t} {_fmt_ts(ts[t])}")
+        pending[t] = ts[t]
+    if fail:
+        ops.append("failmode 0")
+    for _ in range(rng.randint(3, 25)):
+        x = rng.random()
+        if x < 0.5 and pending:
+            u = rng.choice(sorted(pending))
+            ops.append(f"cancel T{u}")
+            del pending[u]
+        elif x < 0.75 and pending:
+            vals = sorted(set(pending.values()))
+            now = rng.choice(vals[:max(1, len(vals) // 2)])
+            now = max(0, min(MAX, now + rng.choice([-1, 0, 0, 0, 1])))
+            ops.append(f"run_all {_fmt_ts(now)}")
+            pending = {t: v for t, v in pending.items() if v > now}
+        elif x < 0.95:
+            free = [t for t in range(nt) if t not in pending]
+            if free:
+                u = rng.choice(free)
+                v = rng.choice(list(pending.values()) + [rng.choice(ts)]) if pending else rng.choice(ts)
+                v = max(0, min(MAX, v + rng.choice([-1, 0, 0, 1])))
+                ops.append(f"sched_future T{u} {_fmt_ts(v)}")
+                pending[u] = v
+        else:
+            ops.append("has_tasks")
+    # drain in time order: one run_all per distinct remaining time, so that the order of runs is observed
+    for v in sorted(set(pending.values())):
+        ops.append(f"run_all {_fmt_ts(v)}")
+    ops.append("cleanup")
+    return Case(ops, {"nt": nt, "tsmode": "heap"})
+
+
+def heap_slice(rng, tier):
+    """small-scope slice over the timed heap: for every heap size 2..8 and a set of timestamp arrangements (all
+    permutations for sizes <= 4, the adversarial 'last element belongs under another subtree' shapes and sampled
+    permutations above), cancel the task in EVERY array position, look at has_tasks, then run the rest in time order"""
+    out = []
+    for n in range(2, 9):
+        arrs = []
+        if n <= 4:
+            arrs = [list(p) for p in itertools.permutations(range(1, n + 1))]
+        else:
+            # heap arrays in which the last element is smaller than everything outside the root path of another subtree
+            asc = list(range(1, n + 1))
+            arrs.append(asc)
+            arrs.append([1] + [10 + i for i in range(n - 2)] + [2])          # last element second smallest
+            arrs.append([1, 10, 2] + [11 + i for i in range(n - 4)] + [3])     # the shape of the missed seed
+            arrs.append([5] * n)
+            arrs.append([1, 1, 2, 2, 3, 3, 4, 4][:n])
+            for _ in range(12 if tier == "quick" else 120):
+                p = asc[:]
+                rng.shuffle(p)
+                arrs.append(p)
+            for _ in range(6 if tier == "quick" else 40):
+                arrs.append([rng.randint(1, 4) for _ in range(n)])
+        for a in arrs:
+            for k in range(n):
+                ops = [f"init {n}"] + [f"sched_future T{i} {a[i]}" for i in range(n)] + [f"cancel T{k}", "has_tasks"]
+                rest = sorted(set(a[i] for i in range(n) if i != k))
+                if rest:
+                    ops.append(f"run_all {rest[0]}")
+                    ops.append(f"sched_future T{k} {rest[-1]}")
+                    for v in rest[1:]:
+                        ops.append(f"run_all {v}")
+                ops.append("cleanup")
+                out.append(Case(ops, {"nt": n, "exhaustive": True, "tsmode": "slice"}))
+    return out
+
+
 def gen_cases(rng, tier):
     n = 2500 if tier == "quick" else 60000
     cases = [gen_case(rng, rng.choice([8, 20, 40, 80])) for _ in range(n)]
+    cases += [gen_heap_case(rng) for _ in range(1500 if tier == "quick" else 30000)]
+    cases += heap_slice(rng, tier)
     cases += exhaustive_cases(3)
     if tier == "thorough":
         cases += exhaustive_cases(5)
